@@ -145,6 +145,8 @@ def classify_function(modname, fname):
     def visit_prange(loop):
         X = _name(loop.target)
         tid_vars, local_arrays, cursors, block_vars = set(), set(), set(), {}
+        views = {}        # name -> 'loopvar' | 'tid': a row view  r = a[X] / a[tid]  that is subscripted later (r[k] = ...)
+        subscripted = {_name(n.value) for n in ast.walk(loop) if isinstance(n, ast.Subscript) and _name(n.value)}
         # pass 1: loop-local definitions
         for node in ast.walk(loop):
             if isinstance(node, ast.Assign):
@@ -159,10 +161,16 @@ def classify_function(modname, fname):
                             tid_vars.add(nm)
                         elif isinstance(v, ast.Subscript):
                             first = _first_index(v)
-                            if _mentions(v, X) or any(_mentions(v, tv) for tv in tid_vars) or any(_mentions(v, c) for c in cursors):
+                            if _base_array(v) in views and not isinstance(first, ast.Slice):
+                                cursors.add(nm)                 # dest = cursors_t[k]  (cursors_t a row view of this thread)
+                            elif _mentions(v, X) or any(_mentions(v, tv) for tv in tid_vars) or any(_mentions(v, c) for c in cursors):
                                 # a scalar/row/slice taken from a per-iteration position of an outer array
                                 if isinstance(first, ast.Slice):
                                     local_arrays.add(nm)        # a view of a per-iteration slice (e.g. psort[starts[i]:starts[i+1]])
+                                elif nm in subscripted and (_name(first) == X or _name(first) in tid_vars):
+                                    # row view of the iteration's / thread's own row: counts_t = counts[t]; counts_t[k] += 1
+                                    # (if `a` were 1-D, a[X] would be a scalar and subscripting it would not type-check)
+                                    views[nm] = 'loopvar' if _name(first) == X else 'tid'
                                 else:
                                     cursors.add(nm)             # e.g. j1, j2, j3 = gstart[tid];  s = pointers[t, k]
                             elif _base_array(v) in local_arrays:
@@ -198,6 +206,8 @@ def classify_function(modname, fname):
             arr = _base_array(sub)
             if arr in local_arrays:
                 return 'local'
+            if arr in views:
+                return views[arr]
             first = _first_index(sub)
             if isinstance(first, ast.Slice):
                 return 'local' if arr in local_arrays else 'unknown'
